@@ -480,8 +480,26 @@ def golden_unit(unit):
     return part
 
 
+def open_unit(unit):
+    """A handle is being opened (every statement of __init__ is a
+    scheduling point) while another client commits writes: afterwards every
+    handle must still see consistent contents and bookkeeping."""
+    from .. import sched
+    from ..scen import CacheScenario
+    from . import c05
+    _, programs, init, cap = unit
+    part = sched.explore(
+        lambda: CacheScenario(programs, c05.INITS[init], 'own',
+                              {'disk_min_file_size': 8}),
+        bound=2, por=True, time_cap=cap)
+    part['label'] = 'sched/open'
+    return part
+
+
 def work(unit):
     kind = unit[0]
+    if kind == 'open':
+        return open_unit(unit)
     if kind == 'grid':
         return grid_unit(unit)
     if kind == 'golden':
@@ -511,10 +529,17 @@ def main(tier, seed):
     for st in CONFIGS[:2]:
         for ch in range(3):
             units.append(('bfs', 'fanout', st, depth, seed, cap, ch, 3))
+    for w in (('set', 'c', BIG, None, None), ('delete', 'a'),
+              ('incr', 'n', 1, 0), ('pop', 'a', 0)):
+        units.append(('open', [[('open',)], [w]], 'file', cap))
+        units.append(('open', [[('open',), ('len',)], [w, ('len',)]], 'two',
+                      cap))
     units = run.shuffled(units, seed)
     for part in run.pmap(work, units):
         rep.merge(part, part.get('label'))
     rep.bounds = {
+        'open': 'a handle being constructed against each of 4 writes by '
+                'another client, all schedules with <= 2 preemptions',
         'bfs': 'depth %d over %d operations (11 data operations + reopen, '
                'second handle, pickle, close-then-use, 3 forked and 3 '
                'threaded operations) x %d setting sets, Cache and '
